@@ -255,4 +255,24 @@ theorem condition_helper_spec {vt : VersionTable} (_ : vt ∈ Versions.all) {h :
       (tr.order.Perm (List.range tr.comps.length) → tr'.order = tr.order ++ [tr.comps.length]) :=
   helper_spec (c := Helpers.ctxC) (helper_ok_of_mem helpers_ok_conditions hh) hrun
 
+/-! ## the hypotheses are met by concrete, non-trivial states (regenerated tables) -/
+
+/-- a scrambled display order is a permutation of the indices -/
+example : [2, 0, 1].Perm (List.range 3) := by decide
+
+/-- in the newest version the first helper that has a parameter, called with that parameter on a trigger that already
+holds two components in scrambled display order, succeeds, stores the argument under the parameter's name, is appended
+at position 2 and extends the order with 2 -/
+example : (match Versions.all.getLast?, Helpers.effectHelpers.find? (fun h => !h.params.isEmpty) with
+    | some vt, some h =>
+      (match h.params with
+       | p :: _ =>
+         (match runHelper (Helpers.ctxE 16) Helpers.effectMembers vt.effects h [(p, .int 77)]
+                  { comps := [[], []], order := [1, 0] } with
+          | .ok (o, tr) => (match dget o p with | some (.int 77) => true | _ => false) &&
+                           Nat.beq tr.comps.length 3 && lbeq tr.order [1, 0, 2]
+          | .error _ => false)
+       | [] => false)
+    | _, _ => false) = true := by decide +kernel
+
 end Aoe.Props.C16
